@@ -52,4 +52,29 @@ the stamp check, during the linker build (partial binary on disk), between build
 example (s : State) (p : Pid) (h1 : s.pc p = .building) : ∃ t, Step s t ∧ t.pc p = .dead :=
   ⟨_, .crash s p (by simp [h1]) (by simp [h1]), by simp [setPc]⟩
 
+/-! ### the stamp file -/
+
+/-- what `writeVersion` writes validates for exactly the binary it was written for (same size), under the same versions -/
+theorem stamp_validates_own_binary (gv pv : Bytes) (size : Nat) :
+    reusable (some (stampFor gv pv size)) (some size) gv pv = true := by
+  simp [reusable]
+
+/-- no version file, or no binary: never reused (the linker is rebuilt) -/
+theorem missing_file_never_reused (st : Option Bytes) (sz : Option Nat) (gv pv : Bytes) :
+    reusable none sz gv pv = false ∧ reusable st none gv pv = false := by
+  constructor
+  · cases sz <;> rfl
+  · cases st <;> rfl
+
+/-- an empty or truncated stamp file (a writer killed mid-write leaves a proper prefix) never validates -/
+theorem truncated_stamp_never_validates (gv pv : Bytes) (size sz : Nat) (k : Nat)
+    (hk : k < (stampFor gv pv size).length) (gv' pv' : Bytes)
+    (hsame : (stampFor gv' pv' sz).length = (stampFor gv pv size).length) :
+    reusable (some ((stampFor gv pv size).take k)) (some sz) gv' pv' = false := by
+  simp only [reusable, beq_eq_false_iff_ne, ne_eq]
+  intro e
+  have := congrArg List.length e
+  simp only [List.length_take] at this
+  omega
+
 end GV.Props.C18
